@@ -85,10 +85,11 @@ Definition is_adding_file (p : patch) (o : options) : bool :=
   | _, _ => false
   end.
 
-Definition guess_filepath (m : fsmap) (p : patch) (o : options) : list N :=
-  if negb (str_eqb (old_path p) devnull) && exists_ m (old_path p) then old_path p
-  else if negb (str_eqb (new_path p) devnull) && exists_ m (new_path p) then new_path p
-  else if negb (str_eqb (index_path p) devnull) && exists_ m (index_path p) then index_path p
+Definition guess_filepath (m : fsmap) (pending : list (list N)) (p : patch) (o : options) : list N :=
+  let ex x := exists_ m x || existsb (str_eqb x) pending in
+  if negb (str_eqb (old_path p) devnull) && ex (old_path p) then old_path p
+  else if negb (str_eqb (new_path p) devnull) && ex (new_path p) then new_path p
+  else if negb (str_eqb (index_path p) devnull) && ex (index_path p) then index_path p
   else if is_adding_file p o then
     let path := if reverse_patch_opt o then old_path p else new_path p in
     if str_eqb path devnull then [] else path
@@ -127,6 +128,7 @@ Definition has_prerequisite (ls : list line) (p : list N) : bool := existsb (fun
 (* ---- driver state across sections ---- *)
 Record deferred := mkDef {
   d_data : list N; d_dest : list N;
+  d_newname : bool;               (* the write of a rename / copy *)
   d_backup : bool;                (* take the backup of d_dest first *)
   d_chmod_first : option N;       (* make writable first (read-only target) *)
   d_perm_after : option N }.      (* permissions to set after writing *)
@@ -206,7 +208,7 @@ Definition body_if (should : bool) (p : patch) (s : stream) : M (patch * stream)
 Definition process_section (o : options) (st : dstate) (should : bool) (p : patch) (s : stream)
   : M (dstate * stream) :=
   let! m := get_fs in
-  let file_to_patch := if is_nil (file_to_patch o) then guess_filepath m p o else file_to_patch o in
+  let file_to_patch := if is_nil (file_to_patch o) then guess_filepath m (map d_dest (deferred_writes st)) p o else file_to_patch o in
   if is_nil file_to_patch then mthrow ESystem               (* prompt_for_filepath: there is no terminal *)
   else
   let output_file := output_path o p file_to_patch in
@@ -224,15 +226,25 @@ Definition process_section (o : options) (st : dstate) (should : bool) (p : patc
     if N.eqb old_perms perms_unknown && match poper p with OpRename | OpCopy => true | _ => false end
     then get_permissions m file_to_patch else old_perms in
   (* read the file to patch *)
-  let! r := perform (OOpenRead file_to_patch) in
+  (* DeferredWriter::pending_write_to: the last deferred write to this path, unless it is the write of a rename / copy
+     over a name that exists *)
+  let pending := match find (fun d => str_eqb (d_dest d) file_to_patch) (rev (deferred_writes st)) with
+                 | Some d => if d_newname d && exists_ m file_to_patch then None else Some (d_data d)
+                 | None => None
+                 end in
   let! input_lines :=
-    (match r with
-     | None => match stat m file_to_patch with
-               | Some (Reg d _) => mret (split_lines d)
-               | _ => mthrow ESystem                      (* reading a directory fails *)
-               end
-     | Some ENOENT => if is_adding_file p o then mret [] else mthrow ESystem
-     | Some _ => mthrow ESystem
+    (match pending with
+     | Some data => mret (split_lines data)
+     | None =>
+         let! r := perform (OOpenRead file_to_patch) in
+         match r with
+         | None => match stat m file_to_patch with
+                   | Some (Reg d _) => mret (split_lines d)
+                   | _ => mthrow ESystem                      (* reading a directory fails *)
+                   end
+         | Some ENOENT => if is_adding_file p o then mret [] else mthrow ESystem
+         | Some _ => mthrow ESystem
+         end
      end) in
   let! _ := (if negb (is_nil (prereq p)) && negb (has_prerequisite input_lines (prereq p)) then
                if batch o then mthrow ERuntime else if force o then mret tt else mthrow ESystem
@@ -300,9 +312,9 @@ Definition process_section (o : options) (st : dstate) (should : bool) (p : patc
            let! _ := checked (OSymlink out_bytes output_file) in mret st'
          else
            mret (mkDS (had_failure st4) (backed_up st4)
-                      (deferred_writes st4 ++ [mkDef out_bytes output_file should_backup chmod_first perm_after])
+                      (deferred_writes st4 ++ [mkDef out_bytes output_file (match poper p3 with OpRename | OpCopy => true | _ => false end) should_backup chmod_first perm_after])
                       (deferred_removals st4) (events st4))
-       else write_now o st4 (mkDef out_bytes output_file should_backup chmod_first perm_after)
+       else write_now o st4 (mkDef out_bytes output_file false should_backup chmod_first perm_after)
      else mret st4) in
   let! st6 :=
     (if Nat.eqb (r_failed ar) 0 && write_to_file && match poper p3 with OpRename => true | _ => false end then
